@@ -94,10 +94,23 @@ def run(ctx):
         base = [r for r in rs if r["variant"] == "base"][0]
         if base["result"]["kind"] == "ok" and base["result"]["rows"]:
             nontrivial.add(vcheck.case_hash([base["query"], base["graph_texts"]]))
+        sup = [r for r in rs if r["variant"] == "superset"]
         for r in rs:
             if r is base:
                 continue
             what = r["variant"].split(":")[0]
+            if what == "seqadd":
+                # query, INSERT, query again: the same final data as the superset run, hence the same result
+                rel_checked[what] += 1
+                a, b = sup[0]["result"], r["result"]
+                same = (a["kind"] == b["kind"] and (a["kind"] != "ok" or rows_by_name(a, a["outs"]) == rows_by_name(b, a["outs"])))
+                if not same:
+                    nviol += 1
+                    if nviol <= 5:
+                        ctx.violation({"kind": "metamorphic-relation", "relation": r["variant"] + " (query, INSERT, query) vs superset",
+                                       "query": r["query"], "pre": r.get("pre"), "graphs": r["graph_texts"],
+                                       "superset_result": a, "sequence_result": b})
+                continue
             if what == "superset" and base.get("has_optional"):
                 continue
             rel_checked[what] += 1
